@@ -276,11 +276,17 @@ func printLoad(rng *rand.Rand, cfg gmars.SimulatorConfig, w gmars.WarriorData, p
 			lines = append(lines, ";author A. Nonymous")
 		}
 		if rng.Intn(2) == 0 {
-			lines = append(lines, ";strategy bomb, then run")
+			lines = append(lines, []string{";strategy bomb, then run", ";strategy", ";strategyX", ";strategy x", ";strategy  indented", ";STRATEGY shout", ";strategy\tx"}[rng.Intn(7)])
+			if rng.Intn(3) == 0 {
+				lines = append(lines, ";strategy second line")
+			}
 		}
 	}
 	noise()
-	if !legacy {
+	// the entry-point directive may be left out when the entry point is the first instruction
+	// (the default of both readers and of the assembler)
+	omit := perturb && w.Start == 0 && rng.Intn(3) == 0
+	if !legacy && !omit {
 		lines = append(lines, p(0)+cs("ORG")+p(1)+fmt.Sprint(w.Start)+p(0))
 	}
 	for _, in := range w.Code {
@@ -300,8 +306,10 @@ func printLoad(rng *rand.Rand, cfg gmars.SimulatorConfig, w gmars.WarriorData, p
 		lines = append(lines, l)
 	}
 	noise()
-	if legacy {
+	if legacy && !omit {
 		lines = append(lines, p(0)+cs("END")+p(1)+fmt.Sprint(w.Start)+p(0))
+	} else if omit && rng.Intn(2) == 0 {
+		lines = append(lines, p(0)+cs("END")+p(0)) // a bare END closes the file in both dialects
 	}
 	text := strings.Join(lines, nl)
 	if !(perturb && rng.Intn(3) == 0) {
@@ -430,7 +438,7 @@ func corrupt(rng *rand.Rand, text []byte) []byte {
 		switch rng.Intn(6) {
 		case 0: // insert a directive / junk line somewhere
 			ins := []string{"ORG 0", "END", "END 0", "ORG", ",", ", ,", "DAT", "JMP $ 0", ";name x", "  ",
-				";redcode", ";redcode-94", ";REDCODE", "\u212a\u212a;", "\u0130;x", "\u212a ; \u212a", ";strategy", ";strategy\u212a"}[rng.Intn(18)]
+				";redcode", ";redcode-94", ";REDCODE", ";strategyX", ";strategy x", ";strategy\t", ";strategy  two", ";STRATEGY y", ";strateg", ";namex", ";name", ";authorx y", "\u212a\u212a;", "\u0130;x", "\u212a ; \u212a", ";strategy", ";strategy\u212a"}[rng.Intn(27)]
 			lines = append(lines[:i], append([]string{ins}, lines[i:]...)...)
 		case 1: // duplicate a line
 			lines = append(lines[:i+1], lines[i:]...)
